@@ -54,6 +54,19 @@ pub fn eval_hashmap(s: &Spec) -> Eval {
     Ok(Report::new(s.input_len() >= 2).class(s.type_name()).class("hashmap-entry-point"))
 }
 
+/// libFuzzer entry: single-threaded contexts only (two new instances, a recycled instance, and for the std-HashMap entry points
+/// further instances with their own iteration order)
+pub fn eval_fuzz(s: &Spec) -> Eval {
+    let a = s.compute();
+    let b = s.compute();
+    ensure!(a == b, "{}: two instances in one thread give different sketches for the same input ({})", s.type_name(), describe_diff(&a, &b));
+    let r = s.compute_with_history(true);
+    ensure!(a == r, "{}: an instance that was used before and reset gives a different sketch than a new instance ({})", s.type_name(), describe_diff(&a, &r));
+    let c = s.compute();
+    ensure!(a == c, "{}: a third instance gives a different sketch ({})", s.type_name(), describe_diff(&a, &c));
+    Ok(Report::new(s.input_len() >= 2))
+}
+
 /// child side: compute every spec of the batch
 pub fn child(inp: &Value) -> Value {
     let specs: Vec<Spec> = serde_json::from_value(inp["specs"].clone()).unwrap_or_default();
